@@ -190,6 +190,7 @@ pub struct Opts {
     pub roundtrip: bool,
     pub after_clear: bool,
     pub with_capacity: usize,
+    pub origin_mix: bool,
     pub tracked: bool,
     pub clone_bisim: bool,
     pub post_pulls: bool,
@@ -403,9 +404,9 @@ fn pulls_of_slot<P: Payload + Clone>(st: &mut Stats, ctx: &Ctx, b: &Bundle, pref
                     } else if last != left.last().copied().unwrap_or(0) {
                         Some(format!("last() is {}", last))
                     } else if folded != left {
-                        Some(format!("fold()/for_each() visits {:?}", folded))
+                        Some(format!("fold()/for_each() or a clone() taken at this point visits {:?}", folded))
                     } else if rev != left_rev {
-                        Some(format!("rev() yields {:?}", rev))
+                        Some(format!("rev() (of the iterator or of a clone taken at this point) yields {:?}", rev))
                     } else {
                         None
                     };
@@ -599,7 +600,7 @@ fn compare_lookups<P: Payload + Clone>(st: &mut Stats, ctx: &Ctx, b: &Bundle, pr
 /// Result of running one bundle (fresh, or after a prefix + clear()).
 fn run_bundle<P: Payload + Clone>(ctx: &Ctx, b: &Bundle, prefix: &Option<Vec<Call>>, prog: &Progress, st: &mut Stats) {
     let keep = ctx.opts.keep;
-    let mut sim: Sim<P> = if ctx.opts.with_capacity > 0 { Sim::with_capacity(ctx.opts.with_capacity) } else { Sim::new() };
+    let mut sim: Sim<P> = if ctx.opts.origin_mix { Sim::origin(ctx.bundle_idx) } else if ctx.opts.with_capacity > 0 { Sim::with_capacity(ctx.opts.with_capacity) } else { Sim::new() };
     let mut digest: u64 = 0xcbf29ce484222325;
     prog.at(0, 0, 0);
     if let Some(pre) = prefix {
@@ -809,7 +810,7 @@ fn run_bundle<P: Payload + Clone>(ctx: &Ctx, b: &Bundle, prefix: &Option<Vec<Cal
                 // (rebuilt from the path, never cloned) gives the same result and an equal arena
                 if ctx.opts.clone_bisim && prefix.is_none() && (oi as u64 + ctx.bundle_idx) % 3 == 0 {
                     st.check("C13", 1);
-                    let mut orig: Sim<P> = if ctx.opts.with_capacity > 0 { Sim::with_capacity(ctx.opts.with_capacity) } else { Sim::new() };
+                    let mut orig: Sim<P> = if ctx.opts.origin_mix { Sim::origin(ctx.bundle_idx) } else if ctx.opts.with_capacity > 0 { Sim::with_capacity(ctx.opts.with_capacity) } else { Sim::new() };
                     for pc in &b.path {
                         orig.apply(pc);
                     }
@@ -869,7 +870,40 @@ fn run_bundle<P: Payload + Clone>(ctx: &Ctx, b: &Bundle, prefix: &Option<Vec<Cal
                 if !same {
                     st.violation(keep, Finding { prop: "C13".into(), kind: "clone_from-not-equal".into(), detail: "dst.clone_from(&arena) onto a used destination gives an arena that differs from the source (==, links, payloads or reusable slots)".into(), case: case_json(b, prefix, None, json!(su.proj()), json!(d.proj())) });
                 }
+                // ... and evolves like the source: one removal followed by allocations (a free list carried over from the
+                // destination's earlier life would show here)
+                if same {
+                    if let Some(slot) = (1..=su.arena.count()).find(|s| !su.arena[su.id(*s)].is_removed()) {
+                        let rm = Call { op: "remove".into(), a: slot, b: 0, v: 0, checked: false, r: vec![] };
+                        let mut d2 = d.fork();
+                        let mut s2 = su.fork();
+                        let r1 = d2.apply(&rm);
+                        let r2 = s2.apply(&rm);
+                        let same2 = std::panic::catch_unwind(std::panic::AssertUnwindSafe(|| r1.class == r2.class && d2.arena == s2.arena && d2.proj() == s2.proj() && d2.drain() == s2.drain())).unwrap_or(false);
+                        if !same2 {
+                            for p in ["C13", "C07"] {
+                                st.violation(keep, Finding { prop: p.into(), kind: "clone_from-evolves-differently".into(), detail: format!("after dst.clone_from(&arena) onto a used destination, remove(slot {}) and the allocations that follow give a different arena / different reusable slots than on the source", slot), case: case_json(b, prefix, Some(&rm), json!({"proj": s2.proj(), "reusable": s2.drain()}), json!({"proj": d2.proj(), "reusable": std::panic::catch_unwind(std::panic::AssertUnwindSafe(|| d2.drain())).unwrap_or_default()})) });
+                            }
+                        }
+                    }
+                }
                 *ctx.scratch.borrow_mut() = Some(d.arena);
+            }
+        }
+        // reserve(k) that returns normally claims room for count() + k nodes, also for absurd k (a wrapped addition in a
+        // release build would return quietly)
+        if ctx.bundle_idx % 64 == 1 && sim.arena.count() > 0 {
+            st.check("C13", 1);
+            let mut f = sim.fork();
+            let n0 = f.arena.count();
+            for k in [usize::MAX, usize::MAX - n0 + 1, usize::MAX / 2 + 1] {
+                let r = std::panic::catch_unwind(std::panic::AssertUnwindSafe(|| f.arena.reserve(k)));
+                if r.is_ok() && n0.checked_add(k).map_or(true, |need| f.arena.capacity() < need) {
+                    st.violation(keep, Finding { prop: "C13".into(), kind: "reserve".into(), detail: format!("reserve({}) on an arena of {} nodes returned normally but capacity() is {}", k, n0, f.arena.capacity()), case: case_json(b, prefix, None, json!(null), json!({"capacity": f.arena.capacity(), "count": n0, "k": k.to_string()})) });
+                }
+            }
+            if f.proj() != sim.proj() {
+                st.violation(keep, Finding { prop: "C13".into(), kind: "reserve".into(), detail: "a refused reserve() changed the arena".into(), case: case_json(b, prefix, None, json!(sim.proj()), json!(f.proj())) });
             }
         }
         // a clone compares equal to its original, and has the same reusable slots
@@ -877,7 +911,7 @@ fn run_bundle<P: Payload + Clone>(ctx: &Ctx, b: &Bundle, prefix: &Option<Vec<Cal
         if cl.arena != sim.arena || cl.drain() != sim.drain() || cl.proj() != sim.proj() {
             st.violation(keep, Finding { prop: "C13".into(), kind: "clone-not-equal".into(), detail: "arena.clone() != arena (or it reports different links / payloads / reusable slots)".into(), case: case_json(b, prefix, None, json!(sim.proj()), json!(cl.proj())) });
         }
-        let mut s2: Sim<P> = if ctx.opts.with_capacity > 0 { Sim::with_capacity(ctx.opts.with_capacity) } else { Sim::new() };
+        let mut s2: Sim<P> = if ctx.opts.origin_mix { Sim::origin(ctx.bundle_idx) } else if ctx.opts.with_capacity > 0 { Sim::with_capacity(ctx.opts.with_capacity) } else { Sim::new() };
         for c in &b.path {
             s2.apply(c);
         }
